@@ -63,6 +63,31 @@ theorem driver_connections_independent (i : Nat) (evs : List (Nat × String)) (s
   have := projection_eq_solo Mimic.Drv.handle i evs st (fun _ => [])
   exact (Prod.mk.inj this).2
 
+/-- the multi-connection front of the model driver (`@i line`) performs exactly one step of `runInter`: connection i's
+    state is replaced by `handle`'s result, every other connection's state is untouched, the output is `handle`'s -/
+theorem driver_step_is_interleaved_step (m : Mimic.Drv.Multi) (i : Nat) (line : String) :
+    (Mimic.Drv.stepAt m i line).2 = (Mimic.Drv.handle (m.get i) line).2 ∧
+    (Mimic.Drv.stepAt m i line).1.get i = (Mimic.Drv.handle (m.get i) line).1 ∧
+    ∀ j, j ≠ i → (Mimic.Drv.stepAt m i line).1.get j = m.get j := by
+  refine ⟨rfl, ?_, ?_⟩
+  · simp [Mimic.Drv.stepAt, Mimic.Drv.Multi.set, Mimic.Drv.Multi.get, List.lookup]
+  · intro j hj
+    simp only [Mimic.Drv.stepAt, Mimic.Drv.Multi.set, Mimic.Drv.Multi.get, List.lookup]
+    have hb : (j == i) = false := by simpa using hj
+    simp only [hb]
+    congr 1
+    induction m.conns with
+    | nil => rfl
+    | cons p rest ih =>
+      by_cases hp : p.1 = i
+      · have : (p.1 != i) = false := by simp [hp]
+        simp only [List.filter, this, List.lookup]
+        have hjp : (j == p.1) = false := by rw [hp]; exact hb
+        simp [hjp, ih]
+      · have : (p.1 != i) = true := by simpa using hp
+        simp only [List.filter, this, List.lookup]
+        split <;> simp_all
+
 /-- **The code has no other state that two connections can reach** (extracted on every run):
     module-level objects are the reviewed constant tables, one pure memo and the context variable; no class-level
     mutable attribute exists; no function body stores into a module-level object; the objects shared between
